@@ -485,10 +485,22 @@ func simpleMaker(c *rawCase) (lexer.Definition, string) {
 }
 
 func jsonDefMaker(c *rawCase) (lexer.Definition, string) {
-	d, v := safeNew(c.rules())
+	src := c.rules()
+	d, v := safeNew(src)
 	if d == nil {
 		return nil, v
 	}
+	// the caller goes on using its rule map (edits a pattern, appends a rule, adds a state): the definition built
+	// from it - and therefore its JSON - must not follow
+	for st, rs := range src {
+		for i := range rs {
+			if rs[i].Pattern != "" {
+				rs[i].Pattern = "zzz" + rs[i].Pattern
+			}
+		}
+		src[st] = append(rs, lexer.Rule{Name: "LaterAddition", Pattern: `q+`})
+	}
+	src["LaterState"] = []lexer.Rule{{Name: "LaterRule", Pattern: `q`}}
 	b, err := json.Marshal(d)
 	if err != nil {
 		return nil, "marshal: " + err.Error()
